@@ -1,4 +1,4 @@
-import CoapVerif.Lemmas.EditWf
+import CoapVerif.Lemmas.EditDup
 /-
 C04 — in-place message edits change only what they name.
 
@@ -13,6 +13,12 @@ STATUS: proved in full.
    abstract option list), Lemmas/EditPatch.lean (the byte-level key lemma: next-option header rewrite = canonical header
    with the new delta, all size classes), Lemmas/EditRefine.lean, Lemmas/EditApi.lean, Lemmas/EditTrace.lean.
  * whole sequences + round trip: `edits_then_roundtrip` (`roundtrip_of_refined` is its second half).
+ * coap_pdu_duplicate_lkd (the copy the library edits further: block-wise transfer, proxy, OSCORE, async): read as the
+   edit sequence "replace the token, remove the named options" on a copy (D16, `duplicate_is_edit_sequence`,
+   `duplicate_frame`); both branches of M refine it for every abstract message, token, filter and capacity
+   (`duplicate_memcpy_refines` closed form, `duplicate_filter_refines`), after any edit sequence and with the round
+   trip (`edits_then_duplicate`).  Lemmas/EditDup.lean.  M is transcribed from the code after fix 56eb60f (a token that
+   cannot be added makes the duplication fail instead of yielding a copy without token).
  * The former open finding hop-limit-left-by-refused-proxy is FIXED in libcoap (coap_add_option_internal removes the
    implicit Hop-Limit again when the Proxy-Uri / Proxy-Scheme option is refused); M is transcribed from the fixed code,
    and the third alternative of `EditOutcome` / the `leftover` constructor of `EditTrace` that described it are gone:
@@ -379,5 +385,140 @@ example : EditTrace ⟨0, 1, 1, [], [], []⟩ [.insert 35 (List.replicate 20 0x6
 Hop-Limit removed again — insertion and removal rewrite the header of option 300 there and back) -/
 example : run (conc 14 ⟨0, 1, 1, [], [(300, [1])], []⟩) [.addOption 35 (List.replicate 20 0x61)] =
     R.ok ([0], conc 14 ⟨0, 1, 1, [], [(300, [1])], []⟩) := by decide
+
+/-! ### coap_pdu_duplicate: a copy with a new token and without the named options (D16) -/
+
+/-- S: the abstract copy IS the C04 edit sequence "token replacement, then one removal per occurrence of a named
+option", applied to the original without its payload and with the new message id -/
+theorem duplicate_is_edit_sequence (m : Msg) (mid : Nat) (tok : Bytes) (drop : Nat → Bool) :
+    Spec.duplicate false m mid tok drop =
+      (Spec.dupEdits m tok drop).foldl (Spec.applyEdit false) { m with mid := mid, payload := [] } := by
+  unfold Spec.dupEdits
+  rw [List.foldl_cons]
+  have h1 : Spec.applyEdit false { m with mid := mid, payload := [] } (.setToken tok) =
+      ⟨m.type, m.code, mid, tok, m.opts, []⟩ := rfl
+  rw [h1, foldl_applyEdit_removes]
+  simp only []
+  rw [foldl_remove_keep]
+  rfl
+
+/-- S, frame: the copy has the new token, no payload, the original's type and code; its options are a sublist of
+the original's (numbers, values and relative order kept), namely exactly those the filter does not name -/
+theorem duplicate_frame (m : Msg) (mid : Nat) (tok : Bytes) (drop : Nat → Bool) :
+    (Spec.duplicate false m mid tok drop).type = m.type ∧ (Spec.duplicate false m mid tok drop).code = m.code ∧
+    (Spec.duplicate false m mid tok drop).mid = mid ∧ (Spec.duplicate false m mid tok drop).token = tok ∧
+    (Spec.duplicate false m mid tok drop).payload = [] ∧
+    (Spec.duplicate false m mid tok drop).opts.Sublist m.opts ∧
+    (∀ o, o ∈ (Spec.duplicate false m mid tok drop).opts ↔ o ∈ m.opts ∧ drop o.1 = false) ∧
+    ((∀ o ∈ m.opts, drop o.1 = false) → (Spec.duplicate false m mid tok drop).opts = m.opts) := by
+  refine ⟨rfl, rfl, rfl, rfl, rfl, ?_, ?_, ?_⟩
+  · exact List.filter_sublist
+  · intro o
+    show o ∈ Spec.keep drop m.opts ↔ _
+    simp [Spec.keep]
+  · intro h
+    show Spec.keep drop m.opts = m.opts
+    unfold Spec.keep
+    rw [List.filter_eq_self]
+    intro o ho
+    simp [h o ho]
+
+/-- **coap_pdu_duplicate_lkd, `drop_options == NULL` (one memcpy of the option area), closed form**: on the PDU
+representing ANY abstract message `a` (any token, options, payload), for every new token, message id, session size and
+capacity: NULL exactly when the capacity `max ms smax` is above what coap_pdu_init accepts, the token is longer than
+65804 bytes, or token field + option area do not fit; otherwise the PDU representing the abstract copy — new id, new
+token (whatever the two token lengths are), all options with their numbers, values and order, no payload -/
+theorem duplicate_memcpy_refines (ms : Nat) (a : Msg) (mid smax : Nat) (t : Bytes) :
+    duplicate (conc ms a) mid smax t none =
+      R.ok (if max ms smax ≤ 8388858 ∧ t.length ≤ 65804 ∧
+               (max ms smax = 0 ∨ (Spec.encToken t).length + (Spec.encOpts 0 a.opts).length ≤ max ms smax)
+            then some (conc (max ms smax) (Spec.duplicate false a mid t (fun _ => false))) else none) :=
+  duplicate_fast_conc ms a mid smax t
+
+/-- **coap_pdu_duplicate_lkd with a drop filter** (options re-added one by one through coap_add_option_internal): on the
+PDU representing any `a` with `Shape`, for every filter, token, id and capacity the result is NULL — and then the
+capacity is limited or above coap_pdu_init's maximum, or the token is too long, or `a` carries a non-repeatable option
+(the only candidates for a refused repetition) — or the PDU representing the abstract copy: exactly the options the
+filter does not name, numbers / values / order kept; D13: Hop-Limit = 16 added only where `dupHopOk` (a request copy
+left with Proxy-Uri / Proxy-Scheme and without Hop-Limit).  Never out of bounds, never a partial copy. -/
+theorem duplicate_filter_refines (ms : Nat) (a : Msg) (mid smax : Nat) (t : Bytes) (drop : Nat → Bool) (hs : Shape a) :
+    ∃ r, duplicate (conc ms a) mid smax t (some drop) = R.ok r ∧
+      ((r = none ∧ (¬ (max ms smax ≤ 8388858) ∨ t.length > 65804 ∨ max ms smax ≠ 0 ∨
+                     ∃ o ∈ a.opts, ¬ repeatable o.1 = true)) ∨
+       ∃ hop : Bool, (hop = true → Spec.dupHopOk a.code (Spec.keep drop a.opts) = true) ∧
+         r = some (conc (max ms smax) (Spec.duplicate hop a mid t drop)) ∧ Shape (Spec.duplicate hop a mid t drop)) :=
+  duplicate_filter_conc ms a mid smax t drop hs
+
+/-- **C04 with a duplication at the end of the edit sequence**: any edits on the PDU representing `a` (any capacity),
+then coap_pdu_duplicate_lkd with or without a filter: the edits end on the PDU representing the abstract edits
+(`EditTrace`), the original is that PDU still (the function is pure in `old`), and the copy is NULL or the PDU —
+with capacity `max ms smax` — representing the abstract copy `c` of the EDITED message; `c` satisfies `Shape`, so
+`edits_then_roundtrip` applies to any further edits of the copy; and whenever `c` is well-formed for a framing its
+serialisation decodes to exactly `c` -/
+theorem edits_then_duplicate (ms : Nat) (a : Msg) (es : List Spec.Edit) (mid smax : Nat) (t : Bytes)
+    (drop : Option (Nat → Bool)) (hs : Shape a) (hn : ∀ e ∈ es, editNumOk e) :
+    ∃ rcs a', run (conc ms a) (es.map callOf) = R.ok (rcs, conc ms a') ∧ EditTrace a es rcs a' ∧
+      ∃ r, duplicate (conc ms a') mid smax t drop = R.ok r ∧
+        (r = none ∨
+         ∃ (hop : Bool) (c : Msg),
+           (hop = true → ∃ f, drop = some f ∧ Spec.dupHopOk a'.code (Spec.keep f a'.opts) = true) ∧
+           c = Spec.duplicate hop a' mid t (drop.getD fun _ => false) ∧
+           r = some (conc (max ms smax) c) ∧ Shape c ∧
+           ∀ p, Spec.WF p c →
+             ∃ bytes, serialise p (conc (max ms smax) c) = some bytes ∧ Spec.decode p bytes = some (Spec.onWire p c)) := by
+  obtain ⟨rcs, a', h1, h2, h3, _⟩ := edits_then_roundtrip ms a es hs hn
+  refine ⟨rcs, a', h1, h2, ?_⟩
+  have hrt : ∀ (c : Msg) (p : Proto), Spec.WF p c →
+      ∃ bytes, serialise p (conc (max ms smax) c) = some bytes ∧ Spec.decode p bytes = some (Spec.onWire p c) :=
+    fun c p hwf => roundtrip_of_refined p (max ms smax) c hwf
+  cases drop with
+  | none =>
+    refine ⟨_, duplicate_fast_conc ms a' mid smax t, ?_⟩
+    by_cases hc : max ms smax ≤ 8388858 ∧ t.length ≤ 65804 ∧
+        (max ms smax = 0 ∨ (Spec.encToken t).length + (Spec.encOpts 0 a'.opts).length ≤ max ms smax)
+    · rw [if_pos hc]
+      right
+      refine ⟨false, _, (fun h => by cases h), rfl, rfl, ?_, hrt _⟩
+      have hk : Spec.duplicate false a' mid t (fun _ => false) = ⟨a'.type, a'.code, mid, t, a'.opts, []⟩ := by
+        simp [Spec.duplicate, keep_none]
+      show Shape (Spec.duplicate false a' mid t (fun _ => false))
+      rw [hk]
+      exact ⟨hc.2.1, h3.2.1, h3.2.2⟩
+    · rw [if_neg hc]; exact Or.inl rfl
+  | some f =>
+    obtain ⟨r, e1, e2⟩ := duplicate_filter_conc ms a' mid smax t f h3
+    refine ⟨r, e1, ?_⟩
+    rcases e2 with ⟨j, _⟩ | ⟨hop, j1, j2, j3⟩
+    · exact Or.inl j
+    · right
+      exact ⟨hop, _, (fun h => ⟨f, rfl, j1 h⟩), rfl, j2, j3, hrt _⟩
+
+/-! non-vacuity of the duplication theorems (by evaluation of M): the message of the examples below, copied … -/
+
+/-- … by memcpy with a LONGER token (1 → 3 bytes): all options arrive, the payload does not -/
+example : duplicate (conc 0 ⟨0, 1, 7, [1], [(3, [0x68]), (300, [1])], [9]⟩) 8 1152 [5, 6, 7] none =
+    R.ok (some (conc 1152 ⟨0, 1, 8, [5, 6, 7], [(3, [0x68]), (300, [1])], []⟩)) := by decide
+/-- … with a SHORTER token (empty) and an exactly fitting capacity (7 option bytes), one byte less: NULL -/
+example : duplicate (conc 0 ⟨0, 1, 7, [1], [(3, [0x68]), (300, [1])], [9]⟩) 8 6 [] none =
+    R.ok (some (conc 6 ⟨0, 1, 8, [], [(3, [0x68]), (300, [1])], []⟩)) := by decide
+example : duplicate (conc 0 ⟨0, 1, 7, [1], [(3, [0x68]), (300, [1])], [9]⟩) 8 5 [] none = R.ok none := by decide
+/-- … through a filter naming option 3: the header of option 300 is re-encoded for the new delta -/
+example : duplicate (conc 0 ⟨0, 1, 7, [1], [(3, [0x68]), (300, [1])], [9]⟩) 8 1152 [5, 6, 7] (some fun n => n == 3) =
+    R.ok (some (conc 1152 ⟨0, 1, 8, [5, 6, 7], [(300, [1])], []⟩)) := by decide
+example : Spec.duplicate false ⟨0, 1, 7, [1], [(3, [0x68]), (300, [1])], [9]⟩ 8 [5, 6, 7] (fun n => n == 3) =
+    ⟨0, 1, 8, [5, 6, 7], [(300, [1])], []⟩ := by decide
+example : Spec.dupEdits ⟨0, 1, 7, [1], [(3, [0x68]), (11, [1]), (3, [2])], [9]⟩ [5] (fun n => n == 3) =
+    [.setToken [5], .remove 3, .remove 3] := by decide
+/-- D13 on a copy: the filter names Hop-Limit of a request carrying Proxy-Uri; the copy gets Hop-Limit = 16 -/
+example : duplicate (conc 0 ⟨0, 1, 7, [], [(16, [5]), (35, [0x78])], []⟩) 8 1152 [] (some fun n => n == 16) =
+    R.ok (some (conc 1152 (Spec.duplicate true ⟨0, 1, 7, [], [(16, [5]), (35, [0x78])], []⟩ 8 [] (fun n => n == 16)))) ∧
+    Spec.dupHopOk 1 (Spec.keep (fun n => n == 16) [(16, [5]), (35, [0x78])]) = true := by decide
+/-- a token that does not fit the copy's capacity: NULL (before fix 56eb60f: a copy WITHOUT token, options 3 and 11) -/
+example : duplicate (conc 0 ⟨0, 1, 7, [1], [(3, [0x68]), (11, [0x61])], []⟩) 8 10 [1,2,3,4,5,6,7,8,9,10,11,12] none = R.ok none ∧
+    duplicate (conc 0 ⟨0, 1, 7, [1], [(3, [0x68]), (11, [0x61])], []⟩) 8 10 [1,2,3,4,5,6,7,8,9,10,11,12] (some fun _ => false) =
+      R.ok none := by decide
+/-- the option filter: 6 slots for numbers ≤ 255, 2 above; a held number is set again without a slot -/
+example : filterOf [] [11, 300, 1, 2, 3, 4, 5, 6, 7, 301, 302, 11] =
+    ([1, 1, 1, 1, 1, 1, 1, 0, 0, 1, 0, 1], [11, 300, 1, 2, 3, 4, 5, 301]) := by decide
 
 end Coap.C04
